@@ -885,6 +885,92 @@ fn run_variant(prog: &[Cmd], keys: &[Vec<u8>], limit: u32, kind: StoreKind, t0: 
 
 pub const RULE_C19: &str = "a case is one generated program (loud) plus quiet/loud masks over its positions; every variant runs on a fresh server with the same clock script and is swept (loud gets of all keys) after every command; non-trivial when the program has >=1 successful mutation and the mask toggles >=1 command; distinct by hash of (program shape, mask)";
 
+/// "Quiet get misses are silent" under concurrency: while other connections set, delete, flush and let items
+/// expire, a reader pipelines `getq k, getkq k, noop`. Whatever the interleaving, the only frames it may ever
+/// receive for the quiet gets are hits (status 0, same payload rules as loud hits); a `Not found` frame for a
+/// quiet get is a violation no matter when the key disappeared.
+fn quiet_race(ctx: &Ctx, shared: &Mutex<Evidence>) {
+    use std::sync::atomic::AtomicBool;
+    use std::sync::Arc;
+    let rounds = ctx.n(40_000, 400_000);
+    for kind in [StoreKind::Plain, StoreKind::Random(1 << 40)] {
+        let stack = Stack::new(kind, 100);
+        let stop = Arc::new(AtomicBool::new(false));
+        let keys: Vec<Vec<u8>> = (0..3).map(|i| format!("qr{}", i).into_bytes()).collect();
+        let mut hs = vec![];
+        for w in 0..3usize {
+            let (memc, stop, keys, timer) = (stack.memc.clone(), stop.clone(), keys.clone(), stack.timer.clone());
+            hs.push(std::thread::spawn(move || {
+                let mut conn = Conn::new(memc, 1 << 20);
+                let mut i = 0u32;
+                while !stop.load(Ordering::Relaxed) {
+                    let k = &keys[(i as usize + w) % keys.len()];
+                    let f = match (w, i % 4) {
+                        (0, 0 | 2) => wire::store(op::SET, k, b"present", 9, 0, i, 0),
+                        (0, _) => wire::delete(op::DELETE, k, i, 0),
+                        (1, 0) => wire::store(op::SET, k, b"short-lived", 9, 1, i, 0),
+                        (1, 1) => {
+                            timer.advance(1);
+                            wire::simple(op::NOOP, i)
+                        }
+                        (1, _) => wire::store(op::ADD, k, b"added", 9, 0, i, 0),
+                        (_, 3) if i % 64 == 3 => wire::flush(op::FLUSHQ, None, i),
+                        _ => wire::store(op::SETQ, k, b"quiet", 9, 0, i, 0),
+                    };
+                    let _ = conn.feed(&f.encode());
+                    i = i.wrapping_add(1);
+                }
+            }));
+        }
+        let mut conn = Conn::new(stack.memc.clone(), 1 << 20);
+        let (mut hits, mut silent) = (0u64, 0u64);
+        let mut bad: Option<(String, u64)> = None;
+        for i in 0..rounds {
+            let k = &keys[(i % 3) as usize];
+            let mut buf = wire::get(op::GETQ, k, 1).encode();
+            buf.extend(wire::get(op::GETKQ, k, 2).encode());
+            buf.extend(wire::simple(op::NOOP, 3).encode());
+            let out = conn.feed(&buf);
+            match wire::parse_all(&out.bytes) {
+                Ok(rs) => {
+                    for r in &rs {
+                        if r.opaque == 3 {
+                            continue;
+                        }
+                        if r.status == st::OK {
+                            hits += 1;
+                        } else {
+                            bad = Some((format!("round {}: a quiet get was answered with {}", i, r.brief()), i));
+                        }
+                    }
+                    silent += 3 - rs.len() as u64;
+                }
+                Err(e) => bad = Some((format!("round {}: {}", i, e), i)),
+            }
+            if bad.is_some() {
+                break;
+            }
+        }
+        stop.store(true, Ordering::Relaxed);
+        for h in hs {
+            let _ = h.join();
+        }
+        let mut e = shared.lock().unwrap();
+        e.evaluations += 1;
+        e.count("quiet_race:quiet_get_hits", hits);
+        e.count("quiet_race:quiet_get_misses_silent", silent);
+        if hits > 0 && silent > 0 {
+            e.nontrivial.insert(fnv(format!("quiet-race:{:?}", kind).as_bytes()));
+        }
+        if let Some((msg, round)) = bad {
+            e.violation(
+                Viol::new(&["C19", "C12"], "quiet-get-miss-answered", format!("while other connections set / delete / flush / expire the key: {}", msg)),
+                json!({"engine":"c19-quiet-race","store":format!("{:?}",kind),"round":round}),
+            );
+        }
+    }
+}
+
 pub fn run_c19(ctx: &Ctx) -> i32 {
     install_quiet_panic_hook();
     let prof = profile_for("C19");
@@ -1034,5 +1120,8 @@ pub fn run_c19(ctx: &Ctx) -> i32 {
             });
         }
     });
+    if !cfg!(miri) && ctx.only_case.is_none() {
+        quiet_race(ctx, &shared);
+    }
     shared.into_inner().unwrap().finish()
 }
